@@ -55,7 +55,8 @@ class C01World(E2EWorld):
         o = obs.get("S")
         if o and (c["mode"] == "ack" or c["closure"]):
             for r in o.get("ind", []):
-                if r["ind"] == "finished" and _success(r):
+                # at the sender the file status is hearsay; success = no error + data complete, file not reported discarded
+                if r["ind"] == "finished" and r["cond"] == "NO_ERROR" and r["deliv"] == "DATA_COMPLETE" and not r["fstat"].startswith("DISCARDED"):
                     self._judge(st, "sender", "Transaction-Finished", r["file"], v)
         return v
 
